@@ -92,4 +92,77 @@ theorem mutual_exclusion (l0 : L) (st0 : Store G D) (progs : Nat → List (Op G 
   exact (Option.some.inj a).symm
 
 end
+
+/-! ### Non-vacuity and the counter-example: StartHunt as check-then-act
+
+Guard `()` = arpMutex, data = number of spoof loops started for one MAC, local = "was the MAC found in the hunt list". -/
+
+/-- StartHunt as the library has it: test and insertion in ONE exclusive section -/
+def startHuntAtomic : Op Unit Bool Nat :=
+  { secs := [{ g := (), body := [fun x => (decide (0 < x.2), x.2), fun x => (x.1, if x.1 then x.2 else x.2 + 1)] }] }
+
+/-- StartHunt with a read-locked fast path and no re-check under the write lock: the test in one section, the insertion
+    (decided by the stale local) in a second one -/
+def startHuntSplit : Op Unit Bool Nat :=
+  { secs := [{ g := (), body := [fun x => (decide (0 < x.2), x.2)] },
+             { g := (), body := [fun x => (x.1, if x.1 then x.2 else x.2 + 1)] }] }
+
+/-- the repaired split: the second section re-reads the list under its own lock (validated re-entry) -/
+def startHuntRecheck : Op Unit Bool Nat :=
+  { secs := [{ g := (), body := [fun x => (decide (0 < x.2), x.2)] },
+             { g := (), body := [fun x => (decide (0 < x.2), x.2), fun x => (x.1, if x.1 then x.2 else x.2 + 1)] }] }
+
+example : SingleSection startHuntAtomic := by simp [SingleSection, startHuntAtomic]
+
+/-- non-vacuity of the hypothesis of `reviewed_disciplines_serializable`: the re-checking split IS a validated re-entry -/
+theorem recheck_validated : ValidatedReentry startHuntRecheck := by
+  refine ⟨by simp [startHuntRecheck], ?_, ?_⟩
+  · intro s hs
+    simp [startHuntRecheck] at hs
+    subst hs
+    intro l d; simp [runMicros]
+  · intro s hs
+    simp [startHuntRecheck] at hs
+    subst hs
+    intro l l' d; simp [runMicros]
+
+/-- the split without re-check is NOT disciplined: its last section depends on the stale local -/
+theorem split_not_disciplined : ¬ Disciplined startHuntSplit := by
+  intro h
+  have := h.2 (by simp [startHuntSplit]) _ (by simp [startHuntSplit]; rfl) true false 0
+  simp [runMicros] at this
+
+/-- non-vacuity of the conclusion: a reachable state that is not the initial one (thread 0 inside StartHunt), to which the
+    theorem applies -/
+example : ∃ σ : State Unit Bool Nat,
+    Reach false (init false (fun _ => 0) (fun i => if i = 0 then [startHuntAtomic] else [])) σ ∧ σ.hist.length = 1 :=
+  ⟨_, Reach.step Reach.refl (Step.acqFirst _ 0 startHuntAtomic [] _ [] rfl rfl rfl rfl rfl), by simp [init]⟩
+
+/-- every sequential order of any number of StartHunt calls (either variant) starts exactly one loop … -/
+theorem serial_split_le_one (n : Nat) (st : Store Unit Nat) (h : st () ≤ 1) :
+    serial false (List.replicate n startHuntSplit) st () ≤ 1 := by
+  induction n generalizing st with
+  | zero => simpa [serial] using h
+  | succ k ih =>
+    simp only [List.replicate_succ, serial]
+    apply ih
+    simp only [runOp, startHuntSplit, runSecs, runMicros, upd]
+    by_cases h0 : 0 < st () <;> simp [h0] <;> omega
+
+/-- … **but the interleaving "A tests, B tests, A inserts, B inserts" — each step a properly locked critical section —
+    starts two** (`check_then_act_not_serializable`): the section-by-section execution of two `startHuntSplit` calls with the
+    second call's test scheduled between the first call's test and insertion ends with 2 loops, a state no sequential order of
+    StartHunt calls reaches. -/
+theorem check_then_act_not_serializable :
+    let test := fun (l : Bool) (d : Nat) => runMicros (L := Bool) (D := Nat) [fun x => (decide (0 < x.2), x.2)] (l, d)
+    let ins := fun (l : Bool) (d : Nat) => runMicros (L := Bool) (D := Nat) [fun x => (x.1, if x.1 then x.2 else x.2 + 1)] (l, d)
+    let a1 := test false 0          -- thread A: section 1
+    let b1 := test false a1.2       -- thread B: section 1
+    let a2 := ins a1.1 b1.2         -- thread A: section 2 with its stale local
+    let b2 := ins b1.1 a2.2         -- thread B: section 2 with its stale local
+    b2.2 = 2 ∧ ∀ n, serial false (List.replicate n startHuntSplit) (fun _ => 0) () ≠ 2 := by
+  refine ⟨by decide, fun n => ?_⟩
+  have := serial_split_le_one n (fun _ => 0) (by simp)
+  omega
+
 end PV.Props.C09Atomic
